@@ -589,7 +589,9 @@ def oracle_stream(events, truth, res):
             got = by_send.get(s["uid"], [])
             if len(got) != 1 or got[0][1] != s["recv"]:
                 fails.append({"kind": "complete_group_send_without_exactly_one_arrow", "group": g["name"],
-                              "ranks": len(g["ranks"]), "arrows": len(got)})
+                              "ranks": len(g["ranks"]), "arrows": len(got),
+                              # the same collective executed again right after its first instance (known finding)
+                              "collgroup_name_reused": bool(g.get("reused"))})
                 break
     return fails
 
@@ -688,7 +690,7 @@ IMPORTS = "From AiuModel Require Import Flow."
 
 def _sig(f):
     s = {"kind": f["kind"]}
-    for k in ("ranks", "arrows", "s", "f", "exc"):
+    for k in ("ranks", "arrows", "s", "f", "exc", "collgroup_name_reused"):
         if k in f:
             s[k] = f[k]
     return s
@@ -873,7 +875,8 @@ def run(ctx):
         mism.append({"name": "correspondence Flow.e2e_val vs Acelyzer --flow", "case": {"opts": opts, "summary": sc.summary()},
                      "impl": eterms[j][1][:600]})
 
-    # shrink what the oracle found
+    # shrink what the oracle found (inputs of a listed known finding last: they must not crowd out anything else)
+    oracle_failures.sort(key=lambda f: bool(f.get("signature", {}).get("collgroup_name_reused")))
     shr = []
     for f in oracle_failures[:3]:
         try:
